@@ -5,6 +5,8 @@ import Mathlib.Data.Fintype.Sum
 import Mathlib.Data.Fintype.Fin
 import Mathlib.Tactic.Linarith
 import Mathlib.Tactic.Ring
+import Mathlib.Tactic.FinCases
+import Mathlib.Tactic.NormNum
 /-! Assign: helper lemmas (mathematical layer: permutations of the padded square vs matchings). -/
 namespace Solvor.Assign
 open Finset
@@ -172,5 +174,19 @@ theorem mcost_compl (c : Fin r → Fin k → ℚ) (mx : ℚ) (m : Fin r → Opti
   rw [Finset.card_filter, Nat.cast_sum, Finset.sum_mul, ← Finset.sum_sub_distrib]
   refine Finset.sum_congr rfl fun i _ => ?_
   cases m i <;> simp
+
+/-! ### strong duality certificate for matchings of size `min r k` -/
+
+theorem assignment_optimal (hn : n = max r k) (c : Fin r → Fin k → ℚ) (U V : Fin n → ℚ)
+    (hfeas : ∀ i j, U i + V j ≤ pad n c i j) (M : Fin r → Option (Fin k))
+    (hM : mcost c M = ∑ i, U i + ∑ j, V j) :
+    ∀ m' : Fin r → Option (Fin k), IsMatching m' → msize m' = min r k → mcost c M ≤ mcost c m' := by
+  intro m' hm' hsz
+  have hr : r ≤ n := by rw [hn]; exact le_max_left r k
+  have hk : k ≤ n := by rw [hn]; exact le_max_right r k
+  obtain ⟨σ, hσ⟩ := matching_extend hr hk m' hm'
+  have : m' = restrict hr σ := matching_eq_of_le hσ (by rw [msize_restrict hn, hsz])
+  rw [hM, this, mcost_restrict]
+  exact dual_bound _ U V hfeas σ
 
 end Solvor.Assign
